@@ -1,9 +1,9 @@
 package exec
 
 import (
-	"os"
-	"go/types"
 	"fmt"
+	"go/types"
+	"os"
 	"runtime/debug"
 	"sort"
 	"strings"
@@ -17,12 +17,12 @@ import (
 
 // Instance is one configuration of one harness function.
 type Instance struct {
-	Name     string         // display name, e.g. "BL-set[L=2]"
-	Pkg      string         // repo-relative package dir ("utils", "." for root)
-	Func     string         // harness function name
-	Config   map[string]int // values for vpConfig
-	Oblig    string         // obligation id (DESIGN appendix B)
-	Props    []string       // properties this instance reports under
+	Name     string            // display name, e.g. "BL-set[L=2]"
+	Pkg      string            // repo-relative package dir ("utils", "." for root)
+	Func     string            // harness function name
+	Config   map[string]int    // values for vpConfig
+	Oblig    string            // obligation id (DESIGN appendix B)
+	Props    []string          // properties this instance reports under
 	Redirect map[string]string // "full callee name" -> harness function (same package as callee or harness pkg) used as summary/stub
 
 	RatFloat       bool
@@ -128,7 +128,16 @@ func RunInstance(prog *Program, inst *Instance, sv Solvers) (res *InstanceResult
 	st.solver = ps
 	fn := prog.Func(inst.Pkg, inst.Func)
 	if fn == nil {
-		res.Errors = append(res.Errors, fmt.Sprintf("harness %s not found in package %s", inst.Func, inst.Pkg))
+		msg := fmt.Sprintf("harness %s not found in package %s", inst.Func, inst.Pkg)
+		if len(prog.Dropped) > 0 {
+			var ds []string
+			for f, e := range prog.Dropped {
+				ds = append(ds, f+" ("+e+")")
+			}
+			sort.Strings(ds)
+			msg += "; harness files that do not compile against this tree were left out: " + strings.Join(ds, "; ")
+		}
+		res.Errors = append(res.Errors, msg)
 		return
 	}
 	for from, to := range inst.Redirect {
@@ -245,6 +254,7 @@ func (st *State) explore() {
 			st.forced = append(st.forced, alt.k)
 		}
 		st.forcedPos = 0
+		st.expectGuard = alt.guard
 		st.setModel(alt.model)
 		st.pathSteps = 0
 		st.spec = nil
